@@ -102,9 +102,30 @@ def monitor (row : Gen.Parrots.Row) (m : Material) (want got : ParsedCH) : Optio
 
 def sniTag (name : Bytes) : String := Drv.C02.sniClass name
 
+/-- class of the caller-pinned Config.MinVersion/MaxVersion of the case. -/
+def cfgTag (c : Case) : String :=
+  match c.input.nat "cmin", c.input.nat "cmax" with
+  | some mn, some mx =>
+    if mn = 0 ∧ mx = 0 then "cfgvers=unset"
+    else if mx ≠ 0 ∧ mx < 0x0303 then "cfgvers=max-below-1.2"
+    else if mn ≠ 0 ∧ mx ≠ 0 ∧ mx < mn then "cfgvers=inverted"
+    else "cfgvers=pinned"
+  | _, _ => "cfgvers=unset"
+
 def parrotWire (c : Case) : Verdict :=
   match c.output.get "err", c.output.get "out" with
-  | some e, _ => .ok s!"pre-error,{((e.drop 4).toString.splitOn "_").headD "?"}"
+  | some e, _ =>
+    -- a predefined parrot refuses to build only where the model says so: a PSK parrot without a session
+    -- and without OmitEmptyPsk ("empty psk detected"). Anything else means no ClientHello for a sane
+    -- configuration — in particular the Config's own MinVersion/MaxVersion must not matter.
+    let name := c.input.getD "id" ""
+    let hasPsk := match findRow name with
+      | some row => row.spec.exts.any fun x => typeId x == 41
+      | none => false
+    let expected := hasPsk && c.input.getD "omitpsk" "1" == "0" && (c.input.get "fakepsk").isNone
+    let cls := ((e.drop 4).toString.splitOn "_").headD "?"
+    if expected then .ok s!"pre-error,{cls}"
+    else .propFail s!"no-hello,{cfgTag c}" s!"parrot-sends-no-client-hello:{(e.drop 4).toString}"
   | none, some o => .bad s!"implementation outcome: {o}"
   | none, none =>
     let name := c.input.getD "id" ""
@@ -121,7 +142,8 @@ def parrotWire (c : Case) : Verdict :=
           (if c.output.get "psk" |>.isSome then ",psk" else "") ++ (if c.output.get "ech" |>.isSome then ",ech" else "") ++
           (if (c.output.getD "ticket" "-") != "-" then ",ticket" else "") ++
           (if c.input.getD "wire" "0" == "1" then ",wire" else "") ++ (if c.input.getD "quic" "0" == "1" then ",quic" else "") ++
-          (if Grease.boring m.seeds.ext1 == Grease.boring m.seeds.ext2 then ",dedup" else "")
+          (if Grease.boring m.seeds.ext1 == Grease.boring m.seeds.ext2 then ",dedup" else "") ++
+          (if cfgTag c == "cfgvers=unset" then "" else "," ++ cfgTag c)
         if !(specWF spec && matOK spec m) then .bad "row or material not well-formed" else
         match parseCH raw with
         | none => .propFail tag "client-hello-does-not-parse"
